@@ -466,6 +466,41 @@ func ruleC10Last(p *Prog, a *Anchors, r *Report) {
 					n := structOf(stripConv(mu.Value).Type())
 					return n != nil && n.Obj().Name() == "tagBlockInformation"
 				})
+				// … and the binding does not outlive the definition in the context it was made in: afterwards `block` is
+				// what it was before (or the definition ran in a context of its own)
+				if bound {
+					keyR := p.FuncName(f) + ":restores-block-info"
+					if allFresh(p.Roots(ctxArg)) {
+						r.OK(keyR, p.InstrPos(in), "the definition runs in a child context of its own")
+					} else {
+						restored := true
+						for _, ret := range returnsOf(f) {
+							if !ReachesInstr(in.Block(), ret) {
+								continue
+							}
+							if !MustPassFrom(in.Block(), instrIndex(in)+1, ret, func(x ssa.Instruction) bool {
+								switch y := x.(type) {
+								case *ssa.MapUpdate:
+									k, isC := constString(stripConv(y.Key))
+									return isC && k == "block" && loadsField(y.Map, "ExecutionContext", "Private")
+								case ssa.CallInstruction:
+									if b, isB := y.Common().Value.(*ssa.Builtin); isB && b.Name() == "delete" && len(y.Common().Args) == 2 {
+										k, isC := constString(stripConv(y.Common().Args[1]))
+										return isC && k == "block"
+									}
+								}
+								return false
+							}) {
+								restored = false
+							}
+						}
+						if restored {
+							r.OK(keyR, p.InstrPos(in), "after the definition has run, `block` is rebound or removed on every path")
+						} else {
+							r.Bad(keyR, p.InstrPos(in), "the definition runs in the enclosing context and leaves its own `block` behind: in {% block outer %}{% block inner %}…{% endblock %}{{ block.Super }}{% endblock %} Super refers to the inner block")
+						}
+					}
+				}
 				if bound {
 					r.OK(key, p.InstrPos(in), "on every path the definition runs with `block` bound to its own remaining definitions")
 				} else {
